@@ -106,6 +106,19 @@ def one_step_structure(ctx, n_cases):
             ctx.stat(f"reversibility_defect[order{order}]", rdef)
             ctx.check(rdef <= 1e-12 * max(1.0, np.abs(z).max()) * max(1.0, omega * abs(h) * 10), "2:opposite step restores the state up to rounding",
                       lambda: {**wit(), "defect": rdef})
+            # (2b) the same with the coupling constant the integrator itself would use for +h and for -h (its documented heuristic):
+            # a step of the integrator and the opposite step of the integrator must undo each other
+            from hiten.algorithms.integrators.symplectic import _get_tao_omega, _recursive_update_poly
+            hh = abs(h) if abs(h) > 5e-3 else 5e-3     # keep omega*h moderate so that rounding in the rotation stays at 1e-12 level
+            cc = float(rng.choice([5.0, 20.0]))
+            w_p, w_m = float(_get_tao_omega(hh, order, cc)), float(_get_tao_omega(-hh, order, cc))
+            zz = np.array(z, dtype=float, copy=True)
+            _recursive_update_poly(zz, hh, int(order), w_p, hs.jac_H, hs.clmo_H)
+            _recursive_update_poly(zz, -hh, int(order), w_m, hs.jac_H, hs.clmo_H)
+            rdef2 = np.abs(zz - z).max()
+            ctx.stat(f"reversibility_defect_with_heuristic_omega[order{order}]", rdef2)
+            ctx.check(rdef2 <= 1e-9 * max(1.0, np.abs(z).max()), "2b:opposite step with the integrator's own coupling constant restores the state",
+                      lambda: {**wit(), "h_used": hh, "c": cc, "omega(+h)": w_p, "omega(-h)": w_m, "defect": rdef2})
             # diagonal invariance is NOT required of the numerical map; but a step with h = 0 must be the identity
             z0 = S(z, 0.0)
             ctx.check(np.abs(z0 - z).max() <= 1e-15, "2:zero step is the identity", wit)
